@@ -503,6 +503,28 @@ func (t *Table) InsertRow(position int, data []string) error {
 		}
 	}
 
+	// 插入位置位于垂直合并区域内部（下一行有 continue 单元格）：新行中对应的单元格加入该合并区域
+	if position > 0 && position < len(t.Rows) {
+		below := &t.Rows[position]
+		for j := len(below.Cells) - 1; j >= 0; j-- {
+			start, span := cellGridStart(below, j), cellGridSpan(&below.Cells[j])
+			if cellVMerge(&below.Cells[j]) != "continue" || start+span > len(newRow.Cells) {
+				continue
+			}
+			joined := newRow.Cells[start]
+			joined.Paragraphs = []Paragraph{{}}
+			if joined.Properties == nil {
+				joined.Properties = &TableCellProperties{}
+			}
+			joined.Properties.VMerge = &VMerge{Val: "continue"}
+			if span > 1 {
+				joined.Properties.GridSpan = &GridSpan{Val: fmt.Sprintf("%d", span)}
+			}
+			rest := append([]TableCell{joined}, newRow.Cells[start+span:]...)
+			newRow.Cells = append(newRow.Cells[:start], rest...)
+		}
+	}
+
 	// 插入行
 	if position == len(t.Rows) {
 		// 在末尾添加
